@@ -89,6 +89,12 @@ def plasmids(scn):
     if scn.get("strand") == "rc":
         vec = rm.revcomp(vec)
         mods = [rm.revcomp(m) for m in mods]
+    lower = scn.get("lower")
+    if lower:
+        # participants (0 = vector, i+1 = module i) spelled in lower case
+        if 0 in lower:
+            vec = vec.lower()
+        mods = [m.lower() if (i + 1) in lower else m for i, m in enumerate(mods)]
     return vec, mods
 
 
@@ -135,7 +141,7 @@ class Outcome(object):
     def brief(self):
         if self.kind == "product":
             return ["product", self.seq if len(self.seq) < 400 else self.seq[:60] + "...", [w for w in self.attrs.get("unused", [])]]
-        return [self.kind, self.exc_name, {k: v for k, v in self.attrs.items()}]
+        return [self.kind, self.exc_name, {k: v for k, v in self.attrs.items() if not k.endswith("_objs")}]
 
 
 def run_assemble(vector, modules, **kw):
@@ -156,6 +162,7 @@ def run_assemble(vector, modules, **kw):
         for w in caught:
             if isinstance(w.message, errors.UnusedModules):
                 unused.append([getattr(m.record, "id", "?") for m in w.message.remaining])
+                o.attrs.setdefault("unused_objs", []).append(list(w.message.remaining))
         o.warnings = caught
         o.attrs["unused"] = unused
     except ScenarioTimeout:
@@ -170,6 +177,7 @@ def run_assemble(vector, modules, **kw):
             o.attrs["start_overhang"] = str(e.start_overhang)
         if isinstance(e, errors.DuplicateModules):
             o.attrs["duplicates"] = [getattr(m.record, "id", "?") for m in e.duplicates]
+            o.attrs["duplicate_objs"] = list(e.duplicates)
     except Exception as e:
         o.kind = "internal-error"
         o.exc = e
